@@ -1243,7 +1243,17 @@ impl Worker {
     let timeout = self.slot.timed_out.swap(false, Ordering::SeqCst);
     let text = String::from_utf8_lossy(&stderr).to_string();
     // thread ids in the runtime's message differ from run to run: digits are masked
-    let text: String = text.chars().map(|c| if c.is_ascii_digit() { '#' } else { c }).collect();
+    let mut masked = String::new();
+    for c in text.chars() {
+      if c.is_ascii_digit() {
+        if !masked.ends_with('#') {
+          masked.push('#');
+        }
+      } else {
+        masked.push(c);
+      }
+    }
+    let text = masked;
     let tail: String = text.chars().rev().take(600).collect::<Vec<_>>().into_iter().rev().collect();
     self.spawn();
     Outcome::Crash { phase, signal: status.and_then(|s| s.signal()), code: status.and_then(|s| s.code()), stderr: tail, timeout }
